@@ -166,6 +166,18 @@ fn conv_level(t: &mut Tape<'_>, o: &ConvOpts, depth: usize, name: &str) -> CmdSp
         a.hide = t.chance(1, 5);
         c.args.push(a);
     }
+    if o.overrides {
+        // override relations between flags/options of this level
+        let ids: Vec<String> = c.args.iter().map(|a| a.id.clone()).collect();
+        for a in c.args.iter_mut() {
+            if ids.len() >= 2 && t.chance(1, 4) {
+                let other = t.pick(&ids).clone();
+                if other != a.id {
+                    a.overrides_with.push(other);
+                }
+            }
+        }
+    }
     // positionals: singles, then maybe a multi / last; or `<files>... <target>`
     let low_index_multi = o.low_index_multi && t.chance(1, 6);
     if low_index_multi {
@@ -421,6 +433,10 @@ pub struct InvOpts {
     pub repeats: bool,
     pub max_occ: usize,
     pub escape: bool,
+    /// also repeat Set/SetTrue/SetFalse arguments that have no override permission (C07: must be rejected)
+    pub illegal_repeats: bool,
+    /// long runs of one repeatable flag (Count up to 300)
+    pub long_runs: bool,
 }
 
 impl Default for InvOpts {
@@ -429,6 +445,8 @@ impl Default for InvOpts {
             repeats: false,
             max_occ: 10,
             escape: true,
+            illegal_repeats: false,
+            long_runs: false,
         }
     }
 }
@@ -449,7 +467,13 @@ pub fn gen_invocation(t: &mut Tape<'_>, spec: &CmdSpec, io: &InvOpts) -> Invocat
                 Action::Append | Action::Count => true,
                 _ => io.repeats && (level.settings.args_override_self || a.overrides_with.contains(&a.id)),
             };
-            let n = if may_repeat { t.weighted(&[0, 5, 3, 2]) } else { 1 };
+            let mut n = if may_repeat { t.weighted(&[0, 5, 3, 2]) } else { 1 };
+            if !may_repeat && io.illegal_repeats && t.chance(1, 6) {
+                n = 2;
+            }
+            if io.long_runs && a.action == Action::Count && t.chance(1, 4) {
+                n = *t.pick(&[254usize, 255, 256, 257, 300, 20]);
+            }
             for _ in 0..n {
                 if !a.action.takes_values() {
                     free.push(Occ::Flag { arg: a.id.clone() });
@@ -608,7 +632,7 @@ pub fn gen_invocation(t: &mut Tape<'_>, spec: &CmdSpec, io: &InvOpts) -> Invocat
             merged.push(Occ::Escape);
             merged.extend(after);
         }
-        if merged.len() > io.max_occ + 4 {
+        if merged.len() > io.max_occ + 4 && !io.long_runs {
             merged.truncate(io.max_occ + 4);
         }
         li.occs = merged;
@@ -1253,6 +1277,129 @@ pub fn expect(spec: &CmdSpec, inv: &Invocation, cluster_entry: &[bool]) -> Optio
         }
     }
     Some(out)
+}
+
+pub enum Expected {
+    Ok(Vec<ExpLevel>),
+    /// occurrences that repeat an argument without override permission: (level, id). Which one
+    /// is reported first depends on when pending values are resolved, any of them justifies the error.
+    Conflict { candidates: Vec<(usize, String)> },
+}
+
+/// Sequential model including overrides: on an occurrence of X every present Y with `X overrides Y`
+/// or `Y overrides X` is removed first; a repeated Set/SetTrue/SetFalse without permission is a conflict.
+pub fn expect_seq(spec: &CmdSpec, inv: &Invocation, cluster_entry: &[bool]) -> Option<Expected> {
+    let mut conflicts: Vec<(usize, String)> = Vec::new();
+    let mut out = Vec::new();
+    let mut level = spec;
+    let mut carry = 0usize;
+    for (li, lv) in inv.levels.iter().enumerate() {
+        let mut el = ExpLevel::default();
+        let mut c = if cluster_entry.get(li).copied().unwrap_or(false) { carry + 1 } else { 0 };
+        let mut prev_pos: Option<String> = None;
+        for occ in &lv.occs {
+            if !matches!(occ, Occ::Escape | Occ::Pos { .. }) {
+                prev_pos = None;
+            }
+            let (arg, values, is_pos): (&String, Option<&Vec<Bytes>>, bool) = match occ {
+                Occ::Escape => continue,
+                Occ::Flag { arg } => (arg, None, false),
+                Occ::Opt { arg, values } => (arg, Some(values), false),
+                Occ::Pos { arg, values } => (arg, Some(values), true),
+            };
+            let a = level.arg(arg)?;
+            let continues = is_pos && prev_pos.as_deref() == Some(arg.as_str()) && a.value_range().1 > 1;
+            if !is_pos {
+                c += 1; // the switch
+            }
+            // the count a Count flag continues from
+            let prev_count: u64 = el
+                .args
+                .get(arg)
+                .and_then(|e| e.occurrences.first())
+                .and_then(|o| o.first())
+                .and_then(|v| String::from_utf8_lossy(v).parse().ok())
+                .unwrap_or(0);
+            let self_ok = level.settings.args_override_self || a.overrides_with.contains(&a.id);
+            if !continues {
+                match a.action {
+                    Action::Set | Action::SetTrue | Action::SetFalse => {
+                        if el.args.contains_key(arg) && !self_ok {
+                            conflicts.push((li, arg.clone()));
+                        }
+                        el.args.remove(arg);
+                    }
+                    Action::Count => {
+                        el.args.remove(arg);
+                    }
+                    _ => {}
+                }
+                // overrides, both directions
+                for o in &a.overrides_with {
+                    el.args.remove(o);
+                }
+                let overriders: Vec<String> = el
+                    .args
+                    .keys()
+                    .filter(|y| level.arg(y).map(|ya| ya.overrides_with.contains(arg)).unwrap_or(false))
+                    .cloned()
+                    .collect();
+                for y in overriders {
+                    el.args.remove(&y);
+                }
+            }
+            let vals: Vec<Bytes> = match (a.action, values) {
+                (Action::SetTrue, _) => vec![b"true".to_vec()],
+                (Action::SetFalse, _) => vec![b"false".to_vec()],
+                (Action::Count, _) => vec![(prev_count + 1).min(255).to_string().into_bytes()],
+                (_, Some(v)) if v.is_empty() && !is_pos => {
+                    let dm: Vec<Bytes> = a.default_missing_values.iter().map(|s| s.as_bytes().to_vec()).collect();
+                    split_delim(&dm, a.value_delimiter)
+                }
+                (_, Some(v)) => v.clone(),
+                _ => return None,
+            };
+            let mut idx = Vec::new();
+            if !a.action.takes_values() {
+                // a flag's stored value sits at the switch's own index
+                idx.push(c);
+            } else {
+                for _ in &vals {
+                    c += 1;
+                    idx.push(c);
+                }
+            }
+            let e = el.args.entry(arg.clone()).or_insert(ExpArg {
+                occurrences: vec![],
+                indices: vec![],
+                positional: is_pos,
+                interleaved: false,
+            });
+            if continues {
+                e.occurrences.last_mut()?.extend(vals);
+                e.indices.extend(idx);
+            } else {
+                if is_pos && !e.occurrences.is_empty() {
+                    e.interleaved = true;
+                }
+                e.occurrences.push(vals);
+                e.indices.extend(idx);
+            }
+            if is_pos {
+                prev_pos = Some(arg.clone());
+            }
+        }
+        el.sub = lv.sub.clone();
+        out.push(el);
+        carry = c;
+        if let Some(name) = &lv.sub {
+            level = level.subs.iter().find(|s| s.name == *name)?;
+        }
+    }
+    if !conflicts.is_empty() {
+        return Some(Expected::Conflict { candidates: conflicts });
+    }
+    Some(Expected::Ok(out))
 }
 
 /// Compare the explicit (command-line) part of an observation with the expectation.
